@@ -13,6 +13,7 @@ import (
 	meta2 "github.com/openGemini/openGemini/lib/util/lifted/influx/meta"
 	"go.uber.org/zap"
 	"pgregory.net/rapid"
+	"verif/internal/bb"
 	"verif/internal/ev"
 )
 
@@ -24,6 +25,7 @@ func TestMain(m *testing.M) {
 	code := m.Run()
 	cleanupScratch()
 	ev.Flush()
+	bb.CleanupAll()
 	os.Exit(code)
 }
 
